@@ -157,10 +157,117 @@ def comparator_facts(sel):
     return plain, guards
 
 
+class _Box:
+    """container probe: records what it is asked"""
+    def __init__(self, ans):
+        self.ans, self.asked = ans, []
+
+    def __contains__(self, x):
+        self.asked.append(x)
+        return self.ans
+
+
+def sentinel_table_observed(sel):
+    """The same table as sentinel_table, OBSERVED: each rich-comparison / membership method of the sentinel's class is
+    called with operands of every kind; it must answer one and the same bool for all of them."""
+    S = sel.NONE_OBJECT
+    cls = type(S)
+    probes = [0, 1, -1, "", "a", b"b", None, True, 1.5, [], [1], (), {"k": 1}, S, object(), _Box(True)]
+    out = {}
+    for name in ("__eq__", "__ne__", "__lt__", "__le__", "__gt__", "__ge__", "__contains__"):
+        if not any(name in k.__dict__ for k in cls.__mro__ if k is not object):
+            out[name] = None
+            continue
+        answers = set()
+        for p in probes:
+            try:
+                answers.add(getattr(cls, name)(S, p))
+            except Exception as e:  # noqa
+                answers.add("raises %s" % type(e).__name__)
+        if len(answers) != 1 or not isinstance(next(iter(answers)), bool):
+            raise Unsupported("%s.%s does not answer one constant bool for every operand: %r" % (cls.__name__, name, sorted(map(str, answers))))
+        out[name] = answers.pop()
+    return out
+
+
+def comparator_facts_observed(sel):
+    """plain operator table by identity of the live functions; In / NotIn guards observed on probe containers."""
+    import ast as _ast
+    import operator as _op
+    plain, guards = {}, {}
+    S = sel.NONE_OBJECT
+    for node_cls, fn in sel.AST_COMPARATORS.items():
+        kind = node_cls.__name__
+        names = [n for n in ("eq", "ne", "lt", "le", "gt", "ge", "contains", "is_", "is_not") if getattr(_op, n) is fn]
+        if names:
+            plain[kind] = names[0]
+            continue
+        if kind not in ("In", "NotIn"):
+            raise Unsupported("AST_COMPARATORS[%s] is not an operator.* function" % kind)
+        neg = kind == "NotIn"
+        for ans in (True, False):
+            box = _Box(ans)
+            if fn(7, box) is not (ans != neg) or box.asked != [7]:
+                raise Unsupported("AST_COMPARATORS[%s](x, container) is not %scontainer.__contains__(x)" % (kind, "not " if neg else ""))
+        # missing operand on the left
+        seen = set()
+        g_left = True
+        for ans in (True, False):
+            box = _Box(ans)
+            v = fn(S, box)
+            if box.asked:
+                g_left = False
+                if v is not (ans != neg):
+                    raise Unsupported("AST_COMPARATORS[%s](<missing>, container): unrecognised behaviour" % kind)
+            else:
+                seen.add(v)
+        if g_left and (len(seen) != 1 or not isinstance(next(iter(seen)), bool)):
+            raise Unsupported("AST_COMPARATORS[%s](<missing>, container) is not one constant bool" % kind)
+        # missing operand on the right: guarded (constant) or consulting the sentinel's own __contains__
+        v = fn(7, S)
+        unguarded = (S.__contains__(7) != neg)
+        if g_left:
+            g_value = seen.pop()
+            if v is g_value:
+                g_right = True          # (when both readings give the same bool the guarded one is chosen: same outcomes)
+            elif v is unguarded:
+                g_right = False
+            else:
+                raise Unsupported("AST_COMPARATORS[%s](x, <missing>): unrecognised behaviour" % kind)
+        else:
+            if v is not unguarded and not isinstance(v, bool):
+                raise Unsupported("AST_COMPARATORS[%s](x, <missing>): unrecognised behaviour" % kind)
+            g_right, g_value = (v is not unguarded), (v if v is not unguarded else False)
+        guards[kind] = (g_left, g_right, g_value)
+    for kind in ("In", "NotIn"):
+        if kind not in guards:
+            if plain.get(kind) == "contains" and kind == "In":
+                guards[kind] = (False, False, False)
+            else:
+                raise Unsupported("AST_COMPARATORS[%s] missing or a bare operator" % kind)
+    for k in ("In", "NotIn"):
+        plain.pop(k, None)
+    return plain, guards
+
+
 def gen_selector():
     import flow.record.selector as sel
-    tbl = sentinel_table(sel)
-    plain, guards = comparator_facts(sel)
+    # OBSERVED facts are the truth; the shape recognisers cross-check them where they recognise the source
+    tbl = sentinel_table_observed(sel)
+    plain, guards = comparator_facts_observed(sel)
+    try:
+        if sentinel_table(sel) != tbl:
+            raise Unsupported("sentinel methods: recognised constants %r contradict the observed ones %r" % (sentinel_table(sel), tbl))
+    except Unsupported as e:
+        if "contradict" in str(e):
+            raise
+    try:
+        plain_s, guards_s = comparator_facts(sel)
+        if (plain_s, guards_s) != (plain, guards):
+            raise Unsupported("AST_COMPARATORS: recognised shape %r contradicts the observed behaviour %r" % ((plain_s, guards_s), (plain, guards)))
+    except Unsupported as e:
+        if "contradicts" in str(e):
+            raise
     f = lambda name: copt(tbl[name], cbool)  # noqa: E731
     out = HEADER
     out += "From Coq Require Import List Bool String.\nImport ListNotations.\nFrom FR Require Import Cmp.\nOpen Scope string_scope.\n\n"
